@@ -621,6 +621,17 @@ func rawGeneralNames(rng *rand.Rand) []byte {
 		{0x30, 0x12, 0x30, 0x10, 0xa0, 0x0e, 0xa0, 0x0c, 0x82, 0x01, 'x', 0x86, 0x07, 'h', 't', 't', 'p', ':', '/', '/'},
 		// DP with reasons only
 		{0x30, 0x06, 0x30, 0x04, 0x81, 0x02, 0x07, 0x80},
+		// DP fullName whose first name is NOT a URI and is itself malformed: a
+		// dNSName that announces more octets than the fullName holds ...
+		{0x30, 0x0b, 0x30, 0x09, 0xa0, 0x07, 0xa0, 0x05, 0x82, 0x7f, 'a', '.', 'b'},
+		// ... a directoryName of indefinite length ...
+		{0x30, 0x0a, 0x30, 0x08, 0xa0, 0x06, 0xa0, 0x04, 0xa4, 0x80, 0x00, 0x00},
+		// ... a name cut off inside its header ...
+		{0x30, 0x07, 0x30, 0x05, 0xa0, 0x03, 0xa0, 0x01, 0x82},
+		// ... an overlong rfc822Name followed by a URI ...
+		{0x30, 0x14, 0x30, 0x12, 0xa0, 0x10, 0xa0, 0x0e, 0x81, 0x7e, 'x', 0x86, 0x09, 'h', 't', 't', 'p', ':', '/', '/', 'a', '/'},
+		// ... and a well-formed URI followed by a name with a multi-octet length that overruns
+		{0x30, 0x13, 0x30, 0x11, 0xa0, 0x0f, 0xa0, 0x0d, 0x86, 0x07, 'h', 't', 't', 'p', ':', '/', '/', 0x82, 0x82, 0xff, 0xff},
 	}
 	return shapes[rng.IntN(len(shapes))]
 }
